@@ -8,7 +8,7 @@
 From Coq Require Import List NArith ZArith Arith Bool Strings.String Lia.
 From V Require Spec.EscapeSpec.
 From V Require Import Base.Bytes Base.Res Gen.StrLeafGen Model.Strings Model.Ast Model.RefDef Model.Blocks Model.Inlines Model.Parse
-     Proofs.StrLeafProofs Proofs.InlinesTotal2 Proofs.InlinesTotal2Sites Proofs.InlinesTotal2Walk
+     Proofs.StrLeafProofs Proofs.InlinesTotal2 Proofs.InlinesTotal2Sites Proofs.InlinesTotal2Walk Proofs.InlinesProofs Proofs.InertParseContent
      Proofs.InlinesTotal4Main.
 Import ListNotations.
 Local Open Scope list_scope.
@@ -71,4 +71,35 @@ Proof.
   intro H. unfold inline_phase.
   destruct (run_leaves_total (iopts_of o) u refmap maxref (bleaves [] root) 0%N (N.le_0_l _) H) as [tbl E].
   rewrite E. cbn [bind]. eexists. reflexivity.
+Qed.
+
+(* for a document without NUL the NUL clause comes from the block phase (InertParseContent.parse_blocks_leaf_contents) *)
+Lemma leaf_nul_free o x r p i :
+  parse_blocks o x = Ok r -> has_nul x = false -> In (p, i) (bleaves [] (br_root r)) ->
+  has_nul (rtrim_slice (bi_content i)) = false.
+Proof.
+  intros H Hn Hin.
+  assert (forallb (fun b => negb (beqb b x00)) (bi_content i) = true) as K.
+  { eapply (parse_blocks_leaf_contents (fun b => negb (beqb b x00))); [|  |exact H|exact Hin].
+    - split; [reflexivity|]. split; reflexivity.
+    - unfold has_nul in Hn. apply forallb_forall. intros b Hb.
+      destruct (beqb b x00) eqn:E; [|reflexivity]. apply beqb_eq in E. subst b. exfalso.
+      assert (existsb (beqb x00) x = true) as K by (apply existsb_exists; exists x00; split; [exact Hb|reflexivity]).
+      rewrite K in Hn. discriminate Hn. }
+  destruct (has_nul (rtrim_slice (bi_content i))) eqn:E; [|reflexivity]. exfalso.
+  unfold has_nul in E. apply existsb_exists in E. destruct E as (b & Hb & Eb).
+  apply rtrim_slice_In in Hb. rewrite forallb_forall in K. specialize (K b Hb).
+  rewrite beqb_sym, Eb in K. discriminate K.
+Qed.
+
+Theorem inline_phase_total_nul_free o u x r :
+  parse_blocks (bopts_of o u) x = Ok r -> has_nul x = false ->
+  (forall p i, In (p, i) (bleaves [] (br_root r)) ->
+     let c := rtrim_slice (bi_content i) in
+     c = [] \/ (Spec.EscapeSpec.utf8_valid c = true /\ first_line_not_blank c = true /\ line_endings c < List.length (bi_lo i))) ->
+  exists t, inline_phase o u (br_root r) (br_refmap r) (br_max_ref_size r) = Ok t.
+Proof.
+  intros H Hn Hl. apply inline_phase_total. intros p i Hin.
+  destruct (Hl p i Hin) as [E|(B & C & D)]; [left; exact E|right].
+  split; [eapply leaf_nul_free; eassumption|]. auto.
 Qed.
